@@ -25,10 +25,4 @@ pub open spec fn code(k: Kind) -> Seq<char> {
         Kind::SignatureDoesNotMatch => "SignatureDoesNotMatch"@,
     }
 }
-/// C13: "500 only for key-provider infrastructure failures, never a success status"
-pub proof fn lemma_status_taxonomy(k: Kind)
-    ensures //# C13 name=status_partition
-        status(k) == 400 || status(k) == 403 || status(k) == 500,
-        status(k) == 500 <==> (k is IO || k is InternalServiceError),
-{}
 
